@@ -65,8 +65,8 @@ CLAIMED = {
    note=TRUST + "The numeric rate of the token bucket is rate.Limiter's; the TOTP gate is judged inside one critical section (lock-aware clauses shared with C16), other interleavings are not explored.",
    design="7 (C14)"),
  "C16": dict(
-   text="Deductive lock-set proof: every read and write of the shared session/challenge maps (localAuthData, vipPushCookie, pendingOauth2 under state.Mutex; totpLocalRateLimit under its own mutex; the Okta session cache under its mutex) and of their contents happens with the protecting mutex held (one obligation per access, in every function of /repo that touches them, found by a sweep over go/ssa); taking a mutex forgets what was known about the state it protects, so check-then-act sequences are proved only inside one critical section: the TOTP two-second gate is tested and published in the critical section entered last before a code is evaluated, and a hardware-token challenge is taken out of the shared map in the critical section that reads it, before the answer is verified (so a second presentation, however interleaved, finds none). An accepted TOTP code leaves the attempt's stamp in the gate's table.",
-   note=TRUST + "sync.Mutex is a trusted contract (held flag per goroutine; callees are assumed lock-balanced); the configuration loader is exempted by a named clause (state not yet shared). NOT covered, and declared out of reach of per-function contracts: lost updates between LoadUserProfile and SaveUserProfile of concurrent requests (no transaction spans them), simultaneous presentation of the one-time values that are not kept in a mutex-protected map (bootstrap OTP in the profile store, the OAuth2 state whose single use the provider enforces), unlocked reads of state.Signer.",
+   text="Deductive lock-set proof: every read and write of the shared session/challenge maps (localAuthData, vipPushCookie, pendingOauth2 under state.Mutex; totpLocalRateLimit under its own mutex; the Okta session cache under its mutex) and of their contents happens with the protecting mutex held (one obligation per access, in every function of /repo that touches them, found by a sweep over go/ssa); taking a mutex forgets what was known about the state it protects, so check-then-act sequences are proved only inside one critical section: the TOTP two-second gate is tested and published in the critical section entered last before a code is evaluated, and a hardware-token challenge is taken out of the shared map in the critical section that reads it, before the answer is verified (so a second presentation, however interleaved, finds none). An accepted TOTP code leaves the attempt's stamp in the gate's table. Profile write-back: one structural obligation per function that calls SaveUserProfile (it would have to write back inside the critical section of its load); /repo has no such section, so all fourteen existing writers fail and are recorded as known findings (history replayed on the real code), and any further writer is a violation.",
+   note=TRUST + "sync.Mutex is a trusted contract (held flag per goroutine; callees are assumed lock-balanced); the configuration loader is exempted by a named clause (state not yet shared). NOT covered, and declared out of reach of per-function contracts: simultaneous presentation of the one-time values that are not kept in a mutex-protected map (bootstrap OTP in the profile store, the OAuth2 state whose single use the provider enforces), unlocked reads of state.Signer.",
    design="7 (C16)"),
  "C17": dict(
    text="Deductive proof (weakest preconditions over go/ssa, SMT) that getLoginDestination returns only same-origin paths as the property defines them, "
